@@ -46,6 +46,12 @@ class CallGraph:
                                 d = self.find_impl_fn(ty, tr, 'fmt')
                                 if d:
                                     es.add(d)
+                        # other std machinery that calls back into repository impls of std traits: the formatting driver writes through the
+                        # `fmt::Write` impl of the sink it was given, iterator adaptors and consumers pull from the `Iterator` impl they wrap
+                        for pat, traits in CALLBACKS:
+                            if re.search(pat, name):
+                                for d in self.callback_items(t.get('ga', ''), traits):
+                                    es.add(d)
                     for a in t['args']:
                         c = a.get('const')
                         if c and 'fn' in c and c['fn'] in self.bodies:
@@ -53,6 +59,19 @@ class CallGraph:
             self.edges[fn] = es
             self.ext[fn] = xs
             self.sites[fn] = sites
+
+    def callback_items(self, ga, trait_suffixes):
+        """items of hand-written impls of the given std traits for a workspace type mentioned in the generic arguments of an external call"""
+        out = []
+        if not ga:
+            return out
+        for imp in self.p.facts.impls:
+            if imp.get('derived') or not any(imp['trait_def'].endswith(x) for x in trait_suffixes):
+                continue
+            base = re.sub(r'<.*$', '', imp['self_ty']).lstrip('&').strip()
+            if base and re.search(r'(^|[^\w:])(\w+::)*' + re.escape(base.split('::')[-1]) + r'\b', ga) and (base in ga or base.split('::')[-1] in ga):
+                out.extend(it for it in imp['items'] if it in self.bodies)
+        return out
 
     def find_impl_fn(self, ty, trait_suffix, item):
         ty = ty.lstrip('&').strip()
@@ -128,6 +147,14 @@ class CallGraph:
                     prev[y] = x
                     st.append(y)
         return None
+
+
+CALLBACKS = [
+    (r'fmt::(Write::write_fmt|write)$', ('fmt::Write',)),
+    (r'io::(Write::write_fmt|Write::write_all|copy)$', ('io::Write', 'io::Read')),
+    (r'(^|::)iter::|Iterator|::collect$|::extend$|::from_iter$', ('iter::Iterator', 'iter::DoubleEndedIterator', 'iter::ExactSizeIterator', 'iter::IntoIterator', 'iter::FromIterator', 'iter::Extend')),
+    (r'hash::Hash|hash::BuildHasher|Hasher', ('hash::Hasher',)),
+]
 
 
 def ga_types(t):
